@@ -1,8 +1,9 @@
 """T1 for C03: character tables the text-level codec model depends on, reflected from the tree under test
 into coq/Gen/Tables_codec.v.
 
-* py_space        - code points matched by `\\s` in a str pattern (probed through the compiled class that
-                    rdflib/plugins/parsers/ntriples.py uses in `uriref`), i.e. what the N-Triples reader refuses inside an IRI
+* uriref_refused  - code points the last character class of rdflib/plugins/parsers/ntriples.py `uriref` excludes (probed
+                    through the compiled class), i.e. what the N-Triples reader refuses inside an IRI after the scheme
+* py_isspace      - str.isspace (readline's test for a blank remainder at end of file)
 * invalid_uri     - rdflib.term._invalid_uri_chars
 * nt_escapes      - rdflib.compat._string_escape_map (escape letter -> character)
 * n3_escapes      - the two strings in SinkParser.strconst ("abfrtvn\\\\\\"'" and its translation), probed by decoding
@@ -26,13 +27,10 @@ def render(rdflib) -> str:
     e = ntriples.uriref.find("]", k)
     cls = re.compile("[" + ntriples.uriref[k + 2:e] + "]") if 0 <= k < e else re.compile(r'[\s"<>]')
     refused = [i for i in range(0x110000) if not (0xD800 <= i <= 0xDFFF) and cls.match(chr(i))]
-    space = [i for i in refused if chr(i) not in '"<>']
-    # readline uses str.isspace() for the blank remainder at end of file: must be the same class
-    assert space == [i for i in range(0x110000) if chr(i).isspace()], "str.isspace and \\s differ"
+    isspace = [i for i in range(0x110000) if chr(i).isspace()]
     out = []
-    out.append("Definition py_space : list N := [" + "; ".join(f"{i}%N" for i in space) + "].")
-    out.append("Definition uriref_extra_refused : list N := ["
-               + "; ".join(f"{i}%N" for i in refused if i not in space) + "].")
+    out.append("Definition uriref_refused : list N := [" + "; ".join(f"{i}%N" for i in refused) + "].")
+    out.append("Definition py_isspace : list N := [" + "; ".join(f"{i}%N" for i in isspace) + "].")
     out.append("Definition invalid_uri : list N := " + cstr(term._invalid_uri_chars) + ".")
     out.append("Definition nt_escapes : list (N * N) := ["
                + "; ".join(f"({ord(k)}%N, {ord(v)}%N)" for k, v in compat._string_escape_map.items()) + "].")
